@@ -443,6 +443,7 @@ partial def loop (h : IO.FS.Stream) (out : IO.FS.Stream) : IO Unit := do
   if line.isEmpty then return ()
   let line := if line.endsWith "\n" then (line.dropEnd 1).toString else line
   out.putStrLn (dispatch (line.splitOn "\t"))
+  out.flush      -- one result per op, visible at once: a slow op must not hide the results before it
   loop h out
 
 def main : IO Unit := do
